@@ -23,9 +23,10 @@ func init() {
 			"Added after blind round 7: ReplicaSession.Stream is never assigned nil (handlers of dropped sessions keep polling through their own pointer). " +
 			"Added after blind round 8: the node-info handler writes no server state (no remembered replica list). " +
 			"Added after blind round 9: every use of a session looked up in Primary.sessions lies behind a nil test of that lookup (sessions are unregistered concurrently; a nil dereference in a gRPC handler ends the primary); heartbeatManager.start declines only when the loop already runs (the loop is also what drops silent sessions). " +
-			"Added after blind round 10: nothing an observer callback of the primary reaches synchronously acquires WAL.mu again (the log calls its observers with that mutex held).",
+			"Added after blind round 10: nothing an observer callback of the primary reaches synchronously acquires WAL.mu again (the log calls its observers with that mutex held). " +
+			"Added after blind round 11: the heartbeat manager keeps the caller's configuration as given, the defaults only for a missing one (a field-by-field merge cannot express SendEmptyResponses=false).",
 		NotDecided: "latencies, time bounds, 'eventually', TCP-level stalls (need a fault-injecting transport).",
-		Rules:      []func(*Ctx, *Reporter){ruleNoBlockingUnderWAL, ruleWritePathLockCycles, ruleObserversReturnNothing, ruleDeadSessions, ruleReplNoReentrancy, ruleKeepalivePings, ruleSessionsMapWriters, ruleSessionStreamNeverCleared, subRulesConstruct(ruleHandlersKeepNoState, "service.KevoServiceServer.GetNodeInfo"), ruleSessionLookupsNilChecked, ruleHeartbeatMonitorAlwaysStarts, ruleObserversDoNotReenterTheLog},
+		Rules:      []func(*Ctx, *Reporter){ruleNoBlockingUnderWAL, ruleWritePathLockCycles, ruleObserversReturnNothing, ruleDeadSessions, ruleReplNoReentrancy, ruleKeepalivePings, ruleSessionsMapWriters, ruleSessionStreamNeverCleared, subRulesConstruct(ruleHandlersKeepNoState, "service.KevoServiceServer.GetNodeInfo"), ruleSessionLookupsNilChecked, ruleHeartbeatMonitorAlwaysStarts, ruleObserversDoNotReenterTheLog, ruleHeartbeatConfigUsedAsGiven},
 	})
 }
 
